@@ -36,10 +36,7 @@ Theorem C14_ids_only_meaning : forall s s', ids_only s s' ->
   forall h e, get_elem s h = Some e -> exists e', get_elem s' h = Some e' /\
     ekind e' = ekind e /\ eparent e' = eparent e /\ erefs e' = erefs e /\ eparams e' = eparams e /\ etag e' = etag e /\
     (protected_id (ekind e) (eid e) = true -> eid e' = eid e).
-Proof.
-  intros s s' [H D]. split; auto. intros h e He. specialize (H h). rewrite He in H.
-  destruct (get_elem s' h) as [e'|]; [|contradiction]. exists e'. unfold same_but_ids in H. intuition.
-Qed.
+Proof. exact ids_only_meaning. Qed.
 Print Assumptions C14_ids_only_meaning.
 
 (* the numbering loop of simple_renumber is [rloop] ... *)
